@@ -98,6 +98,14 @@ Theorem c17_report_replaces_previous : forall cfg st c oa l x,
 Proof. exact observe_credits_l. Qed.
 Print Assumptions c17_report_replaces_previous.
 
+(* of two reports of one connection in quick succession the LATEST one is the
+   one credited *)
+Theorem c17_latest_report_counts : forall cfg st c oa ob l x,
+  counts cfg (closed (step cfg st (Observe c oa))) c ob = Some (l, x) ->
+  get Z.eqb c (cobs (step cfg st (ObservePair c oa ob))) = Some x.
+Proof. exact latest_report_counts_l. Qed.
+Print Assumptions c17_latest_report_counts.
+
 (* ... and a disconnect withdraws it: afterwards the connection is credited
    with nothing, is closed, and externalAddrs is the multiset of the others *)
 Theorem c17_remove_withdraws : forall cfg ops c,
